@@ -85,7 +85,7 @@ def generate(rng, tier, index):
             ops.append(dict(op="update_tree"))
     ops.append(dict(op="steps", n=o.randint(1, 4)))
     return dict(box=dict(size=size, nx=nx, ny=ny, nz=nz), boundary=boundary, gravity=gravity, collision=collision, integrator=integ, dt=dt, particles=ps, ops=ops,
-                omega=1.0, alloc=c.choice([1, 2, 2]), upper=bool(upper))
+                omega=1.0, alloc=c.choice([1, 2, 3]), upper=bool(upper))
 
 
 def execute(case, ctx):
@@ -204,7 +204,10 @@ def execute(case, ctx):
                         # ---- boundary invariants ------------------------------------------------------------------
                         if boundary in ("periodic", "shear"):
                             for h, (x, y, z, vx, vy, vz) in after.items():
-                                if abs(x) > L[0] / 2 or abs(y) > L[1] / 2 or abs(z) > L[2] / 2:
+                                # (with mergers the survivor is placed at the centre of mass after the boundary check of the step: one ulp of rounding for
+                                #  two particles sitting on a face; see the open-boundary clause below)
+                                tolb = 1 + (4e-15 if collision != "none" else 0.0)
+                                if abs(x) > L[0] / 2 * tolb or abs(y) > L[1] / 2 * tolb or abs(z) > L[2] / 2 * tolb:
                                     viol("boundary", "particle outside the box after a step", "hash %d at (%r,%r,%r), box %s" % (h, x, y, z, L), key="boundary:outside:%s" % boundary)
                                     break
                             if collision in ("none", "tree_norad") and len(after) != len(before):
